@@ -67,7 +67,11 @@ class S(explore.Spec):
 
 
 S(name="c10.g1", universe=universe.G1, version="gfa1", rename_targets=("Z", "B"))
-S(name="c10.g2", universe=universe.G2, version="gfa2", rename_targets=("z", "b"))
+# (plus ordered groups that BEGIN with an edge walked backwards, and that
+# list an edge backwards in a later position)
+G2X = list(universe.G2) + ["\t".join(["O", "o5", "e1- a-"]),
+                           "\t".join(["O", "o6", "b- e1- a-"])]
+S(name="c10.g2", universe=G2X, version="gfa2", rename_targets=("z", "b"))
 S(name="c10.g1core", universe=universe.G1_CORE, version="gfa1",
   rename_targets=("Z",))
 S(name="c10.g2core", universe=universe.G2_CORE, version="gfa2",
